@@ -1,3 +1,42 @@
 (** * Properties: ONLY the pinned theorems of the properties, each closed by
-    [exact] of a lemma proved elsewhere, with [Print Assumptions] beneath. *)
-From PQV Require Export AbsPQProofs AbsCostProofs.
+    [exact] of a lemma proved elsewhere, with [Print Assumptions] beneath.
+    (bin/pqv re-checks every statement with [Check (name : statement)] and
+    every [Print Assumptions] on each run.) *)
+From PQV Require Import AbsPQProofs AbsCostProofs ListProofs IterProofs.
+From PQV Require Export PropSpec.
+
+(** ** C05 (abstract layer): comparison counts of the list-level algorithms *)
+Theorem C05_pq_cost : forall (E P : Type) (pr : E -> P) (ple : P -> P -> bool),
+  pq_cost_stmt pr ple.
+Proof. exact @pq_cost. Qed.
+Print Assumptions C05_pq_cost.
+Theorem C05_dpq_cost : forall (E P : Type) (pr : E -> P) (ple : P -> P -> bool),
+  dpq_cost_stmt pr ple.
+Proof. exact @dpq_cost. Qed.
+Print Assumptions C05_dpq_cost.
+
+(** ** C09: mutable iteration *)
+Theorem C09_itermut : forall I P : Type, @itermut_stmt I P.
+Proof. exact @itermut_ok. Qed.
+Print Assumptions C09_itermut.
+Theorem C09_itermut_exact : forall I P : Type, @itermut_exact_stmt I P.
+Proof. exact @itermut_exact. Qed.
+Print Assumptions C09_itermut_exact.
+Theorem C09_itermut_fused : forall I P : Type, @itermut_fused_stmt I P.
+Proof. exact @itermut_fused. Qed.
+Print Assumptions C09_itermut_fused.
+Theorem C09_itermut_adaptor_len : forall I P : Type, @itermut_adaptor_len_stmt I P.
+Proof. exact @itermut_adaptor_len. Qed.
+Print Assumptions C09_itermut_adaptor_len.
+
+(** ** C13: the non-mutable iterators *)
+Theorem C13_dq : forall I P : Type, @dq_stmt I P.
+Proof. exact @dq_ok. Qed.
+Print Assumptions C13_dq.
+Theorem C13_dq_adaptor_len : forall I P : Type, @dq_adaptor_len_stmt I P.
+Proof. exact @dq_adaptor_len. Qed.
+Print Assumptions C13_dq_adaptor_len.
+Theorem C13_sorted_adaptor_len : forall (I P : Type) (ple : P -> P -> bool),
+  @sorted_adaptor_len_stmt I P ple.
+Proof. exact @sorted_adaptor_len. Qed.
+Print Assumptions C13_sorted_adaptor_len.
